@@ -168,6 +168,7 @@ DIRECTED = [
     ("stale-finalize/update-overtaken",
      [S(1, "I", "A", A12)] + steps(1, 4) + [S(1, "U", "A", A12)] + steps(1, 4) + [S(2, "U", "A", A1)] + steps(2, 3) + steps(1, 2)
      + [{"a": "Crash", "n": 2}, S(1, "I", "B", B2)] + steps(1, 4)),
+    ("slow-writer/insert-waited-for", [S(1, "I", "A", A1)] + steps(1, 3) + [S(2, "U", "A", A12)] + steps(2, 4) + steps(1, 1) + steps(2, 6)),
     ("slow-writer/update-waited-for", [S(1, "I", "A", A1)] + steps(1, 4) + [S(1, "U", "A", A12)] + steps(1, 3) + [S(2, "L")] + steps(2, 2) + steps(1, 1) + steps(2, 3) + steps(1, 2)),
 ]
 
@@ -229,13 +230,17 @@ def race_behaviours(ctx):
     # seeded simulations of the larger instance (two databases, loads, one crash)
     if os.environ.get("VERIF_C15_FAST"):
         return res
-    # seeded simulations of the larger instance (two databases, loads, one crash): TLC -simulate is slow on this model
-    # (it builds every successor to pick one), so the quick tier only takes a few
-    sims = behaviours(ctx, SPEC, "MC_ConfigRegistry", "Sim_ConfigRegistry.cfg", num=20 if quick else 300, depth=70, timeout=2400)
+    # seeded simulations of the larger instance (two databases, loads, one crash) under SimNext (one successor per action
+    # kind); the action histogram of what was exported goes into the evidence
+    sims = behaviours(ctx, SPEC, "MC_ConfigRegistry", "Sim_ConfigRegistry.cfg", num=25 if quick else 400, depth=90, timeout=2400)
+    hist = {}
     for b in sims:
+        for st in b["steps"]:
+            hist[st["a"]] = hist.get(st["a"], 0) + 1
         sc = to_schedule(b)
         if interesting(sc):
             add("sim", sc)
+    ctx.cov["sim_action_histogram"] = hist
     return res
 
 
